@@ -362,8 +362,29 @@ fn check_answer(g: &Graph, mode: &Mode, round: usize, out: &Outcome, sh: &mut Sh
     }
 }
 
+/// An upstream server that does not chase aliases: a reply whose answer section starts with a CNAME carries that one
+/// record only, so a chain of upstream links costs one exchange per link.
+fn one_link_responder(u: Arc<Universe>) -> Responder {
+    Box::new(move |ctx: &Ctx| {
+        let Some(req) = ctx.request else {
+            return (Action::Fail, "unparseable-request".into());
+        };
+        let Some(q) = req.questions.first() else {
+            return (Action::Fail, "no-question".into());
+        };
+        let mut r = u.serve(ctx.addr.ip(), q);
+        if r.answers.len() > 1 && matches!(r.answers[0].rtype_with_data, RecordTypeWithData::CNAME { .. }) {
+            r.answers.truncate(1);
+            r.authority.clear();
+        }
+        let m = reply_to(req, r.rcode, r.aa, r.answers, r.authority, r.additional);
+        (Action::Reply(encode(&m)), format!("one-link:{}", r.kind))
+    })
+}
+
 fn case(rng: &mut Rng, sim: &mut Sim, sh: &mut Shard, tr: &mut Tracer, coords: Value) {
     let g = gen_graph(rng);
+    let one_link = rng.chance(1, 3);
     let w = build_world(&g);
     let fwd: SocketAddr = "198.51.100.53:53".parse().unwrap();
     let mode = match rng.below(3) {
@@ -382,14 +403,16 @@ fn case(rng: &mut Rng, sim: &mut Sim, sh: &mut Shard, tr: &mut Tracer, coords: V
         sh.eval();
         let responder: Responder = if mode.forward.is_some() {
             forwarder_responder(w.upstream.clone(), vec![], Fault::Ok, rng.fork(1), Arc::new(Mutex::new(Supplied::default())))
+        } else if one_link {
+            one_link_responder(w.upstream.clone())
         } else {
             universe_responder(w.upstream.clone())
         };
-        tr.begin(|| json!({"coords": coords, "round": round, "graph": graph_json(&g), "mode": mode.name()}));
+        tr.begin(|| json!({"coords": coords, "round": round, "graph": graph_json(&g), "mode": mode.name(), "upstream_one_link_per_reply": one_link}));
         let out = sim.resolve(responder, &mode, &w.zones, &w.cache, &q);
         tr.end();
         let replay = || {
-            json!({"kind": "alias-graph", "coords": coords, "mode": mode.name(), "round": round, "question": question_json(&q), "graph": graph_json(&g),
+            json!({"kind": "alias-graph", "coords": coords, "mode": mode.name(), "round": round, "question": question_json(&q), "graph": graph_json(&g), "upstream_one_link_per_reply": one_link,
                    "result": result_json(&out.result), "virtual_elapsed_ms": out.elapsed.as_millis() as u64, "exchanges": log_json(&out.log)})
         };
         if out.elapsed > Duration::from_millis(60_001) {
@@ -401,6 +424,9 @@ fn case(rng: &mut Rng, sim: &mut Sim, sh: &mut Shard, tr: &mut Tracer, coords: V
             sh.violation(format!("C10:panic:{}", p.split_whitespace().take(5).collect::<Vec<_>>().join("_")), p.clone(), replay());
         }
         sh.count(&format!("mode:{}", mode.name()), 1);
+        if one_link && mode.recursive && mode.forward.is_none() {
+            sh.count("runs:upstream-answers-one-link-per-reply", 1);
+        }
         sh.count(if g.has_cycle { "graphs:with-cycle" } else if len > 28 { "graphs:longer-than-limit" } else { "graphs:acyclic-within-limit" }, 1);
         if len >= 1 {
             let mut h = fnv(format!("{:?}", graph_json(&g)).as_bytes());
@@ -421,7 +447,8 @@ pub fn run(args: Args) {
         "exploration",
         "alias graphs: chains of 0..40 links, pure cycles and rho shapes, a record of another type beside some CNAMEs; each link \
          and the final RRset independently placed in an authoritative zone, a second authoritative zone, the non-authoritative \
-         root zone, the cache or upstream (or all in one source); questions for A / TXT / MX (CNAME and ANY for totality); \
+         root zone, the cache or upstream (or all in one source); the upstream server returns a run of its links in one reply, or \
+         (one case in three) one link per reply; questions for A / TXT / MX (CNAME and ANY for totality); \
          authoritative-only, recursive and forwarding mode; each question asked twice on the same cache. Every answer: leading \
          CNAMEs form a path from the question name, no owner twice, each record is the one its source holds, only records of \
          the asked type owned by the final target follow, nothing repeated; acyclic chains of <= 28 links whose links are all \
